@@ -498,34 +498,62 @@ DoGenesis(s, m) ==
 Flat(n, F(_)) == LET f[i \in 0..n] == IF i = 0 THEN <<>> ELSE f[i - 1] \o F(i) IN f[n]
 CatAuctions(s, dummy, F(_, _)) == Flat(Len(s.auctions), LAMBDA i : F(s, i))
 
-QueryAnswer(s, m) ==
+(* the whole collection a listing iterates over, in store (key) order, as the records the listing displays *)
+ListRaw(s, m) ==
+  CASE m.q = "ListAuction" -> s.auctions
+    [] m.q = "ListBid" ->
+         CatAuctions(s, 1, LAMBDA st, i : MapSeq(st.bids[i], LAMBDA b : [aid |-> st.auctions[i].id, id |-> b.id, bidder |-> b.bidder, matched |-> b.matched]))
+    [] m.q = "ListVestingQueue" ->
+         CatAuctions(s, 1, LAMBDA st, i : MapSeq(st.vqs[i], LAMBDA v : [aid |-> st.auctions[i].id, t |-> v.t, amt |-> v.amt, released |-> v.released]))
+    [] m.q = "ListAllowedBidder" ->
+         CatAuctions(s, 1, LAMBDA st, i : MapSeq(SelectSeq(UserSeq, LAMBDA u : st.allowed[i][u] > 0),
+                                                  LAMBDA u : [aid |-> st.auctions[i].id, u |-> u, cap |-> st.allowed[i][u]]))
+
+(* does a stored object satisfy the set fields of the request *)
+ListMatch(m, x) ==
+  CASE m.q = "ListAuction" -> (m.status = "" \/ x.status = m.status) /\ (m.type = "" \/ x.type = m.type)
+    [] m.q = "ListBid" -> (m.id = 0 \/ x.aid = m.id) /\ (m.bidder = "" \/ x.bidder = m.bidder)
+                          /\ (m.matched = "" \/ (m.matched = "true") = x.matched)
+    [] m.q \in {"ListVestingQueue", "ListAllowedBidder"} -> m.id = 0 \/ x.aid = m.id
+
+ListShow(m, x) == IF m.q = "ListBid" THEN [aid |-> x.aid, id |-> x.id] ELSE x
+
+(* Pagination (query.CollectionFilteredPaginate, offset mode): `offset' stored objects are skipped first, then up to  *)
+(* `limit' objects that satisfy the request are returned (limit 0 = the default of 100, and it turns the total count *)
+(* on); total = number of satisfying objects after the skipped ones + offset; a next page is announced iff some      *)
+(* stored object follows the one that completed the page.                                                            *)
+IsListing(m) == m.q \in {"ListAuction", "ListBid", "ListVestingQueue", "ListAllowedBidder"}
+PLimit(m) == IF "limit" \in DOMAIN m /\ m.limit > 0 THEN m.limit ELSE 100
+POffset(m) == IF "offset" \in DOMAIN m THEN m.offset ELSE 0
+PCount(m) == ("limit" \notin DOMAIN m) \/ m.limit = 0 \/ m.total
+ListRest(s, m) == LET raw == ListRaw(s, m) IN SubSeq(raw, POffset(m) + 1, Len(raw))
+ListHits(s, m) == SelectSeq(ListRest(s, m), LAMBDA x : ListMatch(m, x))
+
+QueryAll(s, m) ==
   CASE m.q = "GetAuction" -> IF Exists(s, m.id) THEN <<Auc(s, m.id)>> ELSE <<>>
-    [] m.q = "ListAuction" ->
-         SelectSeq(s.auctions, LAMBDA a : (m.status = "" \/ a.status = m.status) /\ (m.type = "" \/ a.type = m.type))
     [] m.q = "GetBid" ->
          IF Exists(s, m.id) /\ m.bid \in 1..Len(s.bids[m.id + 1]) THEN <<s.bids[m.id + 1][m.bid]>> ELSE <<>>
-    [] m.q = "ListBid" ->
-         CatAuctions(s, 1, LAMBDA st, i :
-           IF m.id = 0 \/ st.auctions[i].id = m.id
-           THEN MapSeq(SelectSeq(st.bids[i], LAMBDA b : (m.bidder = "" \/ b.bidder = m.bidder)
-                                                       /\ (m.matched = "" \/ (m.matched = "true") = b.matched)),
-                       LAMBDA b : [aid |-> st.auctions[i].id, id |-> b.id])
-           ELSE <<>>)
-    [] m.q = "ListVestingQueue" ->
-         CatAuctions(s, 1, LAMBDA st, i :
-           IF m.id = 0 \/ st.auctions[i].id = m.id
-           THEN MapSeq(st.vqs[i], LAMBDA v : [aid |-> st.auctions[i].id, t |-> v.t, amt |-> v.amt, released |-> v.released])
-           ELSE <<>>)
-    [] m.q = "ListAllowedBidder" ->
-         CatAuctions(s, 1, LAMBDA st, i :
-           IF m.id = 0 \/ st.auctions[i].id = m.id
-           THEN MapSeq(SelectSeq(UserSeq, LAMBDA u : st.allowed[i][u] > 0),
-                       LAMBDA u : [aid |-> st.auctions[i].id, u |-> u, cap |-> st.allowed[i][u]])
-           ELSE <<>>)
     [] m.q = "GetAllowedBidder" ->
          IF Exists(s, m.id) /\ m.u \in Users /\ s.allowed[m.id + 1][m.u] > 0
          THEN <<[aid |-> m.id, u |-> m.u, cap |-> s.allowed[m.id + 1][m.u]]>> ELSE <<>>
     [] m.q = "Params" -> <<s.params>>
+    [] OTHER -> MapSeq(SelectSeq(ListRaw(s, m), LAMBDA x : ListMatch(m, x)), LAMBDA x : ListShow(m, x))
+
+QueryAnswer(s, m) ==
+  IF IsListing(m)
+  THEN LET hits == ListHits(s, m) IN MapSeq(SubSeq(hits, 1, Min(Len(hits), PLimit(m))), LAMBDA x : ListShow(m, x))
+  ELSE QueryAll(s, m)
+
+PageInfo(s, m) ==
+  IF ~IsListing(m) THEN [total |-> 0, more |-> FALSE]
+  \* an empty collection, or an offset beyond its end, gives an empty response without a count
+  ELSE IF Len(ListRaw(s, m)) = 0 \/ POffset(m) > Len(ListRaw(s, m)) THEN [total |-> 0, more |-> FALSE]
+  ELSE LET rest == ListRest(s, m)
+           hits == ListHits(s, m)
+           \* position in rest of the object that completed the page (0 if the page was never completed)
+           P == {k \in 1..Len(rest) : Len(SelectSeq(SubSeq(rest, 1, k), LAMBDA x : ListMatch(m, x))) = PLimit(m)}
+           pos == IF P = {} THEN 0 ELSE CHOOSE k \in P : \A j \in P : k <= j
+       IN [total |-> IF PCount(m) THEN Len(hits) + POffset(m) ELSE 0, more |-> pos > 0 /\ pos < Len(rest)]
 
 DoQuery(s, m) ==
   [st |-> s, ok |-> (m.q \notin {"GetAuction", "GetBid", "GetAllowedBidder"} \/ QueryAnswer(s, m) # <<>>),
